@@ -558,3 +558,18 @@ MODULES["Mesh"] = dict(
         dict(name="mesh2_square_trapezium", file=MS2, impl=r"^Mesh2D<f64>$", fn="square_trapezium"),
         dict(name="mesh2_index", file=MS2, impl=r"^<T>Index<\(usize,usize\)>forMesh2D<T>$", fn="index"),
     ])
+
+# ---------------------------------------------------------------------------------------------------- ParDot (Model/ParDot.v): round two
+# Vector<f64>::dot_f64: the partition arithmetic (num_threads, chunk_size, start / end per worker, the checked slicing by the
+# main thread), the workers as VALUES (scope.spawn(|| BLOCK) = the computation of BLOCK; "handle" = res T), and the sum in
+# join (= spawn) order.  num_cpus::get() is the Section variable num_cpus_ (the model's parameter t).  Not modelled by a value
+# translation: the scheduling -- Model/ParDot.v's run_sched / Proofs/ParDot.v show the result independent of it.
+GTYPES.update({"handle": "(res (T A))", "handles": "(list (res (T A)))", "scope": "unit"})
+_r.LISTS["handles"] = "handle"
+METHODS[("handles", "push", 1)] = dict(g="{0} ++ [{1}]", ret="unit", out=["recv"], args=["handle"])
+METHODS[("index_range", "vec")] = dict(g="subslice {0} {1} {2}", ret="vec", fallible=True)
+MODULES["ParDot"] = dict(
+    imports="From OV Require Import Base.Panic Base.Arith Model.Vector Model.ParDot gen.SrcPrelude.",
+    context=["Context {A : Arith}.", "Variable num_cpus_ : nat."],
+    spec=dict(paths={("num_cpus::get", 0): dict(g="num_cpus_", ret="usize", atom=True)}),
+    funcs=[dict(name="dot_f64", file=V_F64, impl=r"^Vector<f64>$", fn="dot_f64", locals={"threads": "handles"})])
